@@ -144,6 +144,58 @@ class RenameLocals(ast.NodeTransformer):
         return f
 
 
+class IntroduceTemporaries(ast.NodeTransformer):
+    """x = <a> op <b>  ->  _vt_N = <a>; x = _vt_N op <b>   (left operand is evaluated first anyway)"""
+
+    def __init__(self):
+        self.n = 0
+
+    def _split(self, body):
+        out = []
+        for st in body:
+            if isinstance(st, ast.Assign) and len(st.targets) == 1 and isinstance(st.value, ast.BinOp) and isinstance(st.value.left, (ast.Subscript, ast.Attribute, ast.Call)) \
+                    and not any(isinstance(x, (ast.Lambda, ast.NamedExpr, ast.Yield, ast.Await)) for x in ast.walk(st.value)):
+                self.n += 1
+                nm = f"_vt_{self.n}"
+                out.append(ast.Assign(targets=[ast.Name(id=nm, ctx=ast.Store())], value=st.value.left))
+                out.append(ast.Assign(targets=st.targets, value=ast.BinOp(left=ast.Name(id=nm, ctx=ast.Load()), op=st.value.op, right=st.value.right)))
+            else:
+                out.append(st)
+        return out
+
+    def generic_visit(self, node):
+        super().generic_visit(node)
+        for fld in ("body", "orelse", "finalbody"):
+            b = getattr(node, fld, None)
+            if isinstance(b, list) and b and isinstance(b[0], ast.stmt) and not isinstance(node, ast.ClassDef) and not isinstance(node, ast.Module):
+                setattr(node, fld, self._split(b))
+        return node
+
+
+class InvertIfElse(ast.NodeTransformer):
+    """if c: A else: B  ->  if not c: B else: A   (only for plain if/else without elif)"""
+
+    def visit_If(self, n):
+        self.generic_visit(n)
+        if n.orelse and not (len(n.orelse) == 1 and isinstance(n.orelse[0], ast.If)) and not any(isinstance(x, ast.NamedExpr) for x in ast.walk(n.test)):
+            return ast.If(test=ast.UnaryOp(op=ast.Not(), operand=n.test), body=n.orelse, orelse=n.body)
+        return n
+
+
+class CopyAfterSelection(ast.NodeTransformer):
+    """x = df[<mask expression>]  ->  x = df[<mask expression>].copy()"""
+
+    def visit_Assign(self, n):
+        self.generic_visit(n)
+        v = n.value
+        if isinstance(v, ast.Subscript) and isinstance(v.value, ast.Name) and isinstance(v.slice, (ast.Compare, ast.BoolOp, ast.BinOp, ast.Call)) and \
+                (v.value.id in AttrToSubscript.FRAMES or "df" in v.value.id or "kernels" in v.value.id) and len(n.targets) == 1 and isinstance(n.targets[0], ast.Name):
+            if isinstance(v.slice, ast.Call) and not (isinstance(v.slice.func, ast.Attribute) and v.slice.func.attr in ("eq", "ne", "gt", "ge", "lt", "le", "isin")):
+                return n
+            n.value = ast.Call(func=ast.Attribute(value=v, attr="copy", ctx=ast.Load()), args=[], keywords=[])
+        return n
+
+
 def t_unparse(src: str) -> str:
     return ast.unparse(ast.parse(src)) + "\n"
 
@@ -178,6 +230,9 @@ TRANSFORMS = {
     "commute column additions": _tx(CommuteAdd),
     "attribute column access -> subscript": _tx(AttrToSubscript),
     "rename local variables": _tx(RenameLocals),
+    "introduce temporaries for left operands": _tx(IntroduceTemporaries),
+    "invert if/else": _tx(InvertIfElse),
+    "copy() after boolean selection": _tx(CopyAfterSelection),
 }
 
 
